@@ -458,11 +458,21 @@ func checkContexts(t *fw.T, r *rand.Rand, prog *gen.Node, stratum string) {
 			return
 		}
 		t.Count("nested_parses_by_a_second_parser_of_the_same_builder", nested)
+		// a generated program that is not accepted is C02's business - but what the queries answered up to the place of
+		// the first error is judged like any other answer (nothing has been recovered from yet)
+		var limit *token.Position
 		if err != nil {
-			t.Inconclusive("generated program not accepted (C02's business)", src)
-			return
+			if errs := p.Errors(); len(errs) > 0 {
+				limit = &errs[0].Range.Start
+			} else {
+				t.Inconclusive("generated program not accepted (C02's business)", src)
+				return
+			}
 		}
 		for _, o := range obs {
+			if limit != nil && (o.start.Line > limit.Line || (o.start.Line == limit.Line && o.start.Column > limit.Column)) {
+				break
+			}
 			gt := byPos[o.start]
 			if gt == nil {
 				t.Violate("current-token", o.kind, fmt.Sprintf("%s interceptor ran with a current token at %v that is not a token start of the source: %s", o.kind, o.start, gen.Describe(src)), wit())
@@ -509,6 +519,10 @@ func checkContexts(t *fw.T, r *rand.Rand, prog *gen.Node, stratum string) {
 					return
 				}
 			}
+		}
+		if err != nil {
+			t.Inconclusive("generated program not accepted (C02's business)", src)
+			return
 		}
 		finalState(t, p, src, m, true)
 	}
